@@ -173,12 +173,15 @@ def _where(e):
     """innermost onl/ frame of the original exception (the kernel re-raises a copy with __cause__)"""
     last = None
     seen = 0
+    # the watchdog strikes wherever the spinning code happens to be: name the process body (outermost frame outside the
+    # kernel) instead of the innermost frame, so that one hang is one shape
+    outermost = type(e).__name__ == "ExecTimeout"
     while e is not None and seen < 10:
         tb = e.__traceback__
         here = None
         while tb is not None:
             fn = tb.tb_frame.f_code.co_filename
-            if "/onl/" in fn:
+            if "/onl/" in fn and not (outermost and ("/onl/sim/" in fn or here)):
                 here = "%s:%s" % (fn.split("/onl/")[-1], tb.tb_frame.f_code.co_name)
             tb = tb.tb_next
         if here:
